@@ -39,6 +39,14 @@ CHECKS = {
              "subquery, CTE reference) x 8 second-source shapes x up to 2 (quick) / 3 (thorough) clause calls holding a field of an in-scope or foreign source. "
              "Each runs under the six dialect classes; J_C11 (TLC) folds the logged calls and compares the qualifier projection of the real tokens with QualSeq.",
         ref="6/C11", technique="TLA+ builder state machine with NeedsNS/QualSeq (PT_Builder); TLC-grown statements replayed; TLC trace judge on the qualifier projection (J_C11)"),
+    "C12": dict(
+        text="PT_Builder!AliasSeq gives the expected <<clause, alias>> occurrences: a select item prints its alias once, GROUP BY / ORDER BY write an alias only "
+             "if the select list defines it (and the dialect allows GROUP BY aliases), operands never print theirs; TLC checks RefAliasOnce on it. TLC enumerates "
+             "(14 PT_Expr term kinds + 23 further Term classes built by name, each carrying a unique alias) x 18 positions (defining positions, every operand "
+             "slot of arithmetic / function / CASE / comparison, WHERE, HAVING, GROUP BY, ORDER BY, JOIN ON, INSERT values, SET values, GROUP BY / ORDER BY by alias "
+             "or by expression) x 6 dialects; J_C12 (TLC) folds the calls and classifies differences of the alias projection of the real tokens as "
+             "missing / spurious / duplicated / dangling-reference. Term subclasses of the live module that no generated kind reaches are listed in the evidence.",
+        ref="6/C12", technique="TLA+ AliasSeq over the builder state (PT_Builder); TLC class x position product replayed; TLC trace judge on the alias projection (J_C12)"),
     "C13": dict(
         text="PT_Builder gives for every abstract state the statement kind, completeness and the depth-0 clause sequence ClauseSeq per dialect (rank tables of "
              "DESIGN App. C); TLC checks Confluent on the spec (adjacent independent calls commute in the model) while enumerating every subset of <=3 (quick) / "
